@@ -93,15 +93,33 @@ SSHD_ASSUME = [
 SSHD_MODELLED = ["processors/sshd handlers (capture-to-field mapping, placeholders, metric calls inside handlers, write + hand-off); regexes and dispatch switch are generated"]
 
 
+# C05: hand-offs nobody takes for a while, context never cancelled (harness/sshd/slow.go); all scenarios of a stage run
+# concurrently, so a stage lasts about as long as its longest wait.  Quick: up to 1.5 s; thorough: up to 31 s; and, in
+# any tier, up to 61 s as a search once an obligation broke and no failing input has been found.
+def slow_handoff(pid, delays):
+    return ["-prop", pid, "-mode", "slow", "-delays", ",".join(str(d) for d in delays)]
+
+
+SLOW_ASSUME = ("slow hand-off stage (C05): after the event is written nobody receives on the unbuffered logins channel for 0.15-1.5 s (quick), "
+               "up to 31 s (thorough) or up to 61 s (search after a broken obligation) while the context stays live; then exactly one login must be there; "
+               "real time is observed, not modelled (the model's hand-off is taken or cancelled, never timed)")
+
+
 def sshd(pid, n_quick=360, n_thorough=6000):
     extra = daemon_extra(pid) if pid == "C07" else []
+    search_extra = []
+    assume = list(SSHD_ASSUME)
+    if pid == "C05":
+        extra = [("sshd", {}, slow_handoff(pid, [150, 1500, 6500, 12000, 31000]), False, slow_handoff(pid, [150, 700, 1500]))]
+        search_extra = [("sshd", {}, slow_handoff(pid, [1500, 6500, 12000, 31000, 61000]), False)]
+        assume.append(SLOW_ASSUME)
     reg(Spec(
         pid, "Props/%s.v" % pid, harness="sshd",
         args_quick=["-prop", pid, "-n", str(n_quick)],
         args_thorough=["-prop", pid, "-n", str(n_thorough)],
         args_search=["-prop", pid, "-n", "3000"],
-        assumptions=SSHD_ASSUME + ([DAEMON_ASSUME] if extra else []), modelled=SSHD_MODELLED,
-        extra_targets=["Model/SshdCheck.vo"], thorough_extra=extra,
+        assumptions=assume + ([DAEMON_ASSUME] if pid == "C07" else []), modelled=SSHD_MODELLED,
+        extra_targets=["Model/SshdCheck.vo"], thorough_extra=extra, search_extra=search_extra,
     ))
 
 
